@@ -178,7 +178,7 @@ def set_spec(c, doc, tokens):
         while j < n and not (not isinstance(tokens[j], Tok) and tokens[j] in keys):
             vals.append(tokens[j])
             j += 1
-        old = doc[t]
+        old = new[t][1] if isinstance(new[t], tuple) and new[t][0] == "bool" else doc[t]    # named twice: edited twice
         if isinstance(old, (bool, SB)):
             if not vals:
                 new[t] = ("bool", sym.snot(old))
